@@ -11,7 +11,9 @@ def runLineT (line : String) : String :=
     | some r => r
     | none => match opTree3 toks with
       | some r => r
-      | none => "bad-op"
+      | none => match opTree4 toks with
+        | some r => r
+        | none => "bad-op"
 
 partial def loopT (hin hout : IO.FS.Stream) : IO Unit := do
   let line ← hin.getLine
